@@ -66,6 +66,25 @@ func checkC05(p *Prog, r *Report) {
 	if nSwitch == 0 {
 		r.Fail("role switch", "agent.go", "no role switch found (rule instance lost)")
 	}
+	// ---- R5.7 only the tie-breakers switch a role ---------------------------------------------------------
+	r.Rule("R5.7", "A role switch (a store to the role flag whose value depends on the current flag) is decided by the tie-breakers: on every path to it the function has consulted the agent's tie-breaker. No other event — an error response, a timeout, a nomination — flips the role, so which agent ends up controlling depends on the two tie-breaker values and not on the order in which messages arrive.", 1)
+	for _, f := range p.AllFuncs {
+		if f.Pkg != p.Ice || f.Body == nil {
+			continue
+		}
+		f := f
+		walkBody(f, func(n ast.Node) bool {
+			c, ok := n.(*ast.CallExpr)
+			if !ok || !p.isMethodOnField(c, "Agent.isControlling", "Store") || !p.MentionsField(c.Args[0], "Agent.isControlling") {
+				return true
+			}
+			decided := p.MustPrecede(f, c, func(nd ast.Node) bool {
+				return p.MentionsField(nd, "Agent.tieBreaker")
+			})
+			r.Check(decided, "role switch in "+f.Name+" is decided by the tie-breakers", p.Pos(c.Pos()), "the agent's tie-breaker is consulted on every path to the switch", "the role is switched in "+f.Name+" without the tie-breakers having been compared: the final roles depend on message order (for instance a late 487 flips an agent that already switched back), not on the tie-breaker values")
+			return true
+		})
+	}
 	if !r.Anchor("Agent.handleRoleConflict", hrc != nil) || !r.Anchor("Agent.handleInboundRequest", hir != nil) {
 		return
 	}
